@@ -193,7 +193,7 @@ func (c *Cron) set(j *Job) error {
 		return nil
 	}
 
-	if t, err := time.Parse(j.Expression, time.RFC3339); err == nil {
+	if t, err := time.Parse(time.RFC3339, j.Expression); err == nil {
 		j.at = t
 		j.Once = true
 		return nil
